@@ -200,8 +200,12 @@ def confirm(path, timeout=300):
     return "error", (r.stdout + r.stderr)[-2000:]
 
 
+MAX_CONFIRMED = 40      # replays are sequential fresh interpreters: stop confirming after this many violations
+
+
 def run_property(prop, jobs, tier, seed, meta, workers=None, level="model_checking"):
     t0 = time.time()
+    skipped = []
     workers = workers or min(16, os.cpu_count() or 4)
     for j in jobs:
         j["tier"] = tier
@@ -266,6 +270,11 @@ def run_property(prop, jobs, tier, seed, meta, workers=None, level="model_checki
             seen.setdefault(key, []).append((i, c))
         for key, lst in seen.items():
             status, rep_path, log = "not_reproduced", None, ""
+            if len(violations) >= MAX_CONFIRMED and not is_twin:
+                # enough replay-confirmed violations to report; the remaining candidates are listed, not replayed
+                skipped.append(dict(job=r["name"], label=key[0], cls=key[1], n=len(lst)))
+                tot["cex"] += len(lst)
+                continue
             for i, c in lst[:3]:     # try up to three models of the same fingerprint
                 rep_path = write_replay(prop, j, c, i)
                 status, log = confirm(rep_path)
@@ -329,7 +338,7 @@ def run_property(prop, jobs, tier, seed, meta, workers=None, level="model_checki
         known_findings=[dict(what=w, fingerprints=len(r)) for w, r in known_hits.items()],
         violations=[dict(job=v["job"], label=v["label"], cls=v["cls"], replay=v["replay"]) for v in violations],
         sensitivity_twins=dict(fired=len(twins_ok), silent=twins_bad),
-        coverage_drops=drops,
+        coverage_drops=drops, counterexamples_not_replayed=skipped[:50],
         functions_encoded=sorted(functions), bounds=meta.get("bounds", {}).get(tier, meta.get("bounds")),
         outside=meta.get("outside", []),
         solver=dict(z3=_z3_version(), queries=tot["queries"], solver_time_s=round(tot["solver_time"], 2),
@@ -357,6 +366,8 @@ def run_property(prop, jobs, tier, seed, meta, workers=None, level="model_checki
           f"unreproduced={len(unreproduced)}) aborted={tot['aborted']} not_explored={tot['not_explored']} "
           f"validated={tot['validated']} mismatches={tot['mismatches']} twins={len(twins_ok)}/"
           f"{len(twins_ok) + len(twins_bad)} wall={wall:.1f}s")
+    if skipped:
+        print(f"NOTE {len(skipped)} further counterexample fingerprint(s) were not replayed after {MAX_CONFIRMED} confirmed violations")
     if crashes:
         return 3
     return 1 if violations else 0
